@@ -270,6 +270,9 @@ def phi(cond, a, b):
     # `None if v is None else v` is v
     if isinstance(cond, tuple) and cond[0] == "is" and cond[2] == NONE and a == NONE and b == cond[1]:
         return b
+    # two list / tuple literals of the same length: join element-wise
+    if isinstance(a, tuple) and isinstance(b, tuple) and a and b and a[0] in ("l", "t") and b[0] in ("l", "t") and len(a[1]) == len(b[1]) and len(a[1]) > 0:
+        return (a[0], tuple(phi(cond, x, y) for x, y in zip(a[1], b[1])))
     # two dict literals with the same keys: join value-wise
     if isinstance(a, tuple) and isinstance(b, tuple) and a and b and a[0] == "d" and b[0] == "d" and len(a[1]) == len(b[1]):
         kb = dict(b[1])
